@@ -16,7 +16,8 @@ DECIDED = [
     "wait_timestamp(params) of the message's own parameters; the three helper siblings return the stored next "
     "execution time when set, else the computed one, and None only without params/delay",
     "R-C05-ROUND: rounding-direction lattice on due-time conversions: the producer side never rounds down coarser than "
-    "1 ms, the consumer's 'now' never rounds up",
+    "1 ms, the consumer's 'now' never rounds up; no duration anywhere in repid is taken from timedelta.seconds/.microseconds without the .days of the same value "
+    "(whole days are not dropped from a delay)",
     "R-C05-CMP: the in-memory due test moves a message only when due < now (three orderings evaluated); the Redis "
     "normal-category fetch of the delayed set is score-bounded by now, the unbounded fetch is reachable only for the "
     "DELAYED category",
